@@ -274,6 +274,18 @@ def c06(D, h, pairs=None):
         want = tr.classify(roots, singles, a, d)
         if got != want:
             bad.append('classification %s>%s differs from the generating history: got %s want %s' % (taxS(a), taxS(d), got, want))
+        # gained = the family is younger than the ancestral genome (theorem C06_gained_iff_family_younger): the gained genes are
+        # the members of the descendant genome whose top-level HOG (the gene itself for a singleton) sits strictly below `a`
+        try:
+            def root_path(x):
+                while x.parent is not None:
+                    x = x.parent
+                return ob.gtax(x)
+            young = set(id(x) for x in gs[d].genes if not (len(root_path(x)) <= len(a)))
+            if set(id(x) for x in v.get_gained()) != young:
+                bad.append('comparison %s>%s: the gained genes are not the members of the descendant genome whose family is rooted strictly below the ancestor' % (taxS(a), taxS(d)))
+        except Exception as e:         # noqa
+            bad.append('reading the family roots of %s raised %s' % (taxS(d), type(e).__name__))
         try:
             n = v.get_number_duplications()
             if n != sum(len(x) - 1 for x in v.get_duplicated().values()):
